@@ -536,6 +536,9 @@ impl Router {
             connection.events.events.pop_front();
         }
 
+        // Logs of the groups whose cursor is set back to the unacknowledged publishes of this member
+        let mut rewound: Vec<FilterIdx> = Vec::new();
+
         // Save state for persistent sessions
         if !connection.clean {
             // Add inflight data requests back to tracker
@@ -558,6 +561,8 @@ impl Router {
                         // the group is already gone when this was its last member
                         if let Some(group) = self.shared_subscriptions.get_mut(group_name) {
                             group.cursor = *cursor;
+                            // the members that remain may all be parked behind these entries
+                            rewound.push(request.filter_idx);
                         }
                     }
                 }
@@ -577,12 +582,14 @@ impl Router {
         }
         self.router_meters.total_connections -= 1;
 
-        // the turn of these groups passed to another member, which may be parked
-        let logs = turn_moved
+        // the turn of these groups passed to another member, which may be parked, and the
+        // groups set back have entries to hand out again
+        let mut logs: Vec<FilterIdx> = turn_moved
             .iter()
             .filter_map(|name| extract_group(&format!("$share/{name}")))
             .filter_map(|(_, path)| self.datalog.filter_idx(&path))
             .collect();
+        logs.extend(rewound);
         self.wake_parked(logs);
     }
 
